@@ -83,6 +83,11 @@ func (r *Report) Rule(id, primitive, clause string, min int) {
 }
 
 func (r *Report) add(st State, construct, pos, detail string, facts []string) *Obligation {
+	if r.cur == nil {
+		// an obligation recorded before the first rule was declared (an anchor that
+		// could not be resolved): it belongs to the anchor resolution
+		r.Rule(r.Property+".anchors", "anchor resolution", "anchors of the property's rules", 0)
+	}
 	o := &Obligation{Rule: r.cur.Rule, Construct: construct, State: st, Pos: pos, Detail: detail, Facts: facts}
 	r.Obs = append(r.Obs, o)
 	r.cur.Instances++
